@@ -112,7 +112,7 @@ Proof.
   exists ss. split; [exact Eg|].
   pose proof (elab_inv d n He) as [Hndn HWF].
   unfold elab, elab_stmts in He. rewrite Ec in He. cbn [bind] in He. apply bind_ok in He as [s [Hx Hfin]].
-  pose proof (classify_top_ok d ss Ec) as Htop.
+  pose proof (classify_top_ok d ss (classify_ok _ _ Ec)) as Htop.
   pose proof (grammar_closed d GTop ss Eg) as Hclosed. cbn [g_inside] in Hclosed.
   pose proof (hdr_sorted_ss ss 3 Hsorted) as Hhdr.
   assert (Hne : ~ In [] (model_names ss)).
